@@ -21,6 +21,10 @@ func streamHt(o opts) {
 	w := newTraceWriter(o.out, "ht")
 	for t := 0; t < o.n; t++ {
 		capHint := pick(r, []int{0, 0, 1, 2, 4, 4, 8, 16})
+		pinnedTomb := t%8 == 3
+		if pinnedTomb {
+			capHint = 2 // the smallest table
+		}
 		h := kioshun.NewVerifHtable(capHint)
 		w.T(sidHt, ints(int64(capHint)))
 		nkeys := 4 + r.Intn(36)
@@ -40,6 +44,20 @@ func streamHt(o opts) {
 			default:
 				hashes[i] = r.Uint64()
 			}
+		}
+		if pinnedTomb {
+			// three rounds of: a, b colliding; a candidate c probed behind them (empty-slot cursor, pinned); b evicted
+			// between probe and publish (its tombstone sits next to the pin and is not reclaimed); the candidate
+			// abandoned; a removed; the table, now empty of live keys, cleared. Afterwards two keys near the end.
+			_, _, n, _ := h.Counters()
+			nkeys = 12
+			hashes = make([]uint64, nkeys)
+			for rd := 0; rd < 3; rd++ {
+				for j := 0; j < 3; j++ {
+					hashes[3*rd+j] = uint64((j+1)*n + 2*rd)
+				}
+			}
+			hashes[9], hashes[10], hashes[11] = uint64(n+n-2), uint64(2*n+n-2), uint64(3*n+n-2)
 		}
 		directed := t%8 == 7
 		if directed {
@@ -110,6 +128,33 @@ func streamHt(o opts) {
 			ref[k] = val
 			w.O((&toks{}).I(1, int64(k)).U(hashes[k]).I(int64(val)), (&toks{}).B(had).I(int64(pv)).I(obs()...))
 			m.count("store")
+		}
+		if pinnedTomb {
+			watch(fmt.Sprintf("ht trace %d (pinned tombstone, abandon, clear)", t))
+			for rd := 0; rd < 3; rd++ {
+				ka, kb, kc := 3*rd, 3*rd+1, 3*rd+2
+				storeKey(ka)
+				storeKey(kb)
+				found, pv := h.Probe(kc, hashes[kc])
+				w.O((&toks{}).I(3, int64(kc)).U(hashes[kc]), (&toks{}).B(found).I(int64(pv)))
+				removeKey(kb)
+				h.Unpin()
+				w.O(ints(6), ints(obs()...))
+				removeKey(ka)
+				h.Clear()
+				ref = map[int]int{}
+				w.O(ints(9), ints(obs()...))
+				if live, tombs, slots, _ := h.Counters(); live != 0 {
+					htViolate(m, fmt.Sprintf("after clear: %d live entries (tombs %d, slots %d)", live, tombs, slots), fmt.Sprintf("ht trace %d", t))
+				}
+			}
+			storeKey(9)
+			storeKey(10)
+			check("two stores after three probe / evict / abandon / clear rounds")
+			v, ok := h.Lookup(11, hashes[11]) // never stored: the walk must find an empty slot
+			w.O((&toks{}).I(2, 11).U(hashes[11]), (&toks{}).B(ok).I(int64(v)))
+			unwatch()
+			m.count("pinned_tomb_traces")
 		}
 		if directed {
 			// tombstone saturation: a run of colliding keys, then repeatedly remove the head of the run (a tombstone that
